@@ -8,6 +8,7 @@ CONSTANTS Sizes = {0, 1, 2, 3, 4}
           MaxCacheables = {2, 8}
           MaxOps = 1
           Inductive = TRUE
+          Procs = {}
           HistSizes = {0, 3}
           HistLen = 2
 INVARIANTS CacheSound TransparentInv
